@@ -209,7 +209,7 @@ def lnL_of(prob):
     return float(lf.lnL)
 
 
-def lf_from_library_tree(prob, t):
+def lf_from_library_tree(prob, t, explicit_lengths=True):
     """likelihood function on a cogent3 tree object, every branch length set explicitly from the tree's own nodes
     (so a zero length is honoured instead of being replaced by default_length)"""
     from cogent3 import make_aligned_seqs
@@ -223,9 +223,10 @@ def lf_from_library_tree(prob, t):
         lf.set_motif_probs(prob["mprobs"])
     for p_, v in prob["params"].items():
         lf.set_param_rule(p_, init=v)
-    for node in t.get_edge_vector(include_root=False):
-        if node.length is not None:
-            lf.set_param_rule("length", edge=node.name, init=float(node.length))
+    if explicit_lengths:
+        for node in t.get_edge_vector(include_root=False):
+            if node.length is not None:
+                lf.set_param_rule("length", edge=node.name, init=float(node.length))
     return lf
 
 
@@ -256,6 +257,8 @@ def relate_library_tree_ops(res, rng, model):
     rtol = 1e-9 if nstates <= 16 else 1e-8
     names = M.tips(prob["tree"])
     internal = [e["name"] for e in M.edges(prob["tree"]) if e["children"]]
+    all_positive = all(e["length"] > 0 for e in M.edges(prob["tree"]))
+    base_tree = float(lf_from_library_tree(prob, make_tree(nw), explicit_lengths=False).lnL) if all_positive else None
     ops = [("copy", lambda t: t.copy()), ("deepcopy", lambda t: t.deepcopy()), ("sorted", lambda t: t.sorted())]
     if model in M.REVERSIBLE:
         ops += [("unrooted", lambda t: t.unrooted()), ("unrooted_deepcopy", lambda t: t.unrooted_deepcopy()), ("root_at_midpoint", lambda t: t.root_at_midpoint())]
@@ -274,6 +277,19 @@ def relate_library_tree_ops(res, rng, model):
         res.count("relation:library-" + opname)
         if not (abs(got - base) <= rtol * max(1.0, abs(base)) or (np.isinf(got) and np.isinf(base))):
             res.witness(f"C11/library-tree/{opname}/lnL-changes", model=model, got=got, exp=base, tree=nw, transformed=t2.get_newick(with_distances=True), zero_length_root_child=any(c["length"] == 0 for c in prob["tree"]["children"]), replay_case=rc)
+        if all_positive:
+            # the way users do it: lengths taken from the tree by make_likelihood_function. A transformation of a tree
+            # with positive lengths has no business introducing zero-length edges (which the function would replace by
+            # default_length), so this must agree as well
+            try:
+                got2 = float(lf_from_library_tree(prob, t2, explicit_lengths=False).lnL)
+                res.evals += 1
+                res.count("relation:library-lengths-from-tree")
+                if not abs(got2 - base_tree) <= rtol * max(1.0, abs(base_tree)):
+                    res.witness(f"C11/library-tree/{opname}/lnL-changes-with-lengths-taken-from-tree", model=model, got=got2, exp=base_tree, tree=nw, transformed=t2.get_newick(with_distances=True), replay_case=rc)
+            except Exception as e:  # noqa: BLE001
+                res.evals += 1
+                res.witness(exc_mechanism(f"C11/library-tree/{opname}/lengths-from-tree", e), model=model, tree=nw, replay_case=rc)
         if len(names) >= 4:
             res.sig(model, "library-" + opname, M.shape_class(prob["tree"]), "dyadic" if dyadic else "real")
     res.count("library-problems")
